@@ -19,7 +19,7 @@ Check == LET c == Data.cases[tidx]
              ref == Outcome(shape, cfg)
              alg == AlgOutcome(shape, cfg)
          IN \A j \in 1..Len(c.outs) :
-              /\ (c.outs[j].out = ref) \/ Say(tidx, j, IF ForeignOnlyInDroppedSection(shape, cfg) /\ c.outs[j].out = alg THEN "ref-dev-as-alg" ELSE "ref")
+              /\ (c.outs[j].out = ref) \/ Say(tidx, j, IF ForeignOnlyInDroppedSection(shape, cfg) /\ c.outs[j].out = alg THEN "ref-dev-as-alg:" \o DevKind(shape, cfg) ELSE "ref")
               /\ (c.outs[j].out = alg) \/ Say(tidx, j, "alg")
 Inv == Check \/ TRUE
 =============================================================================
